@@ -214,11 +214,11 @@ def gen_lines(ctx, expect=None):
     for n in sorted(nv): L.append(f"nsnnwn_put {n}")
     for p in range(512):             # every 9-bit prefix (7 bits + the 2 extra length bits)
         pre = format(p, "09b")
-        for tail in ("", rbits(rng, 7), rbits(rng, 8), rbits(rng, 15), rbits(rng, 16), rbits(rng, 20)):
+        for tail in ("", rbits(rng, 7), rbits(rng, 8), rbits(rng, 15), rbits(rng, 16), rbits(rng, 20), rbits(rng, 23), rbits(rng, 24), rbits(rng, 29)):
             L.append(f"nsnnwn_get {pre + tail}")
     for cut in range(0, 9): L.append(f"nsnnwn_get {bs('101010101'[:cut])}")
     for n in sorted(nv):             # the standard encoding (X.691 10.6) must be accepted by the reader
-        if 0 <= n < 65536:
+        if 0 <= n < (1 << 24):
             e = o_normally_small(n)
             l = f"nsnnwn_get {e + rbits(rng, rng.choice([0, 1, 9]))}"
             L.append(l); expect[l] = f"{n} {len(e)}"
@@ -329,7 +329,7 @@ def gen_lines(ctx, expect=None):
 # ------------------------------------------------------------------ P leg
 
 def p_leg(ctx, drv, lines, couts, expect):
-    """returns list of (line, c_output, why, region) with region in {None, 'F29', 'nslength'}"""
+    """returns list of (line, c_output, why, region) with region in {None, 'F5'}"""
     fails = []
     second, second_chk = [], []
     n_cases = 0
@@ -365,7 +365,7 @@ def p_leg(ctx, drv, lines, couts, expect):
             if 0 <= n < (1 << 24):
                 n_cases += 1
                 exp = o_normally_small(n)
-                if c != exp: fails.append((l, c, f"X.691 10.6 expects {exp}", "F29" if n >= 64 else None))
+                if c != exp: fails.append((l, c, f"X.691 10.6 expects {exp}", None))
                 if c != "-1": rt("nsnnwn_get", c, n, l)
         elif op in ("nsnnwn_get", "nslength_get", "cwn_get"):
             n_cases += 1
@@ -379,7 +379,7 @@ def p_leg(ctx, drv, lines, couts, expect):
             if 1 <= n < 16384:
                 n_cases += 1
                 exp = o_normally_small_length(n)
-                if c != exp: fails.append((l, c, f"X.691 10.9.3.4 expects {exp}", "nslength" if n > 64 else None))
+                if c != exp: fails.append((l, c, f"X.691 10.9.3.4 expects {exp}", None))
                 if c != "-1": rt("nslength_get", c, n, l)
         elif op == "cwn_put":
             rb, v = int(t[1]), int(t[2])
@@ -479,11 +479,7 @@ def p_leg(ctx, drv, lines, couts, expect):
         for (src, exp), l2, c in zip(second_chk, second, c2):
             n_cases += 1
             if c != exp:
-                region = None
-                t = src.split()
-                if t[0] == "nsnnwn_put" and int(t[1]) >= 64: region = "F29"
-                if t[0] == "nslength_put" and int(t[1]) > 64: region = "nslength"
-                fails.append(((src + " ; " + l2)[:300], str(c)[:120], f"reader must invert the writer: expected {exp[:120]}", region))
+                fails.append(((src + " ; " + l2)[:300], str(c)[:120], f"reader must invert the writer: expected {exp[:120]}", None))
     return fails, n_cases
 
 def category(why):
@@ -523,12 +519,8 @@ def run(ctx):
     unexplained = []
     for l, c, why, region in fails:
         f = None
-        if region == "F29":
-            f = ctx.match_finding(lambda f: f["id"] == "F29" or f.get("l1per") == "nsnnwn>=64")
-        elif region == "F5":
+        if region == "F5":
             f = ctx.match_finding(lambda f: f["id"] == "F5")
-        elif region == "nslength":
-            f = ctx.match_finding(lambda f: f["id"] == "F64" or f.get("l1per") == "nslength>64")
         if not f: unexplained.append((l, c, why))
     for l, c, why in unexplained[:5]:
         ctx.violation(f"{ctx.prop} (L1 PER/OER primitives) predicate fails on C: {l} -> {c}: {why}",
